@@ -273,15 +273,15 @@ macro_rules! put_harness {
         }
     };
 }
-// @ob props=C01,C07 tier=quick cap=700 fns=InnerBucket::put,InnerBucket::put_leaf,InnerBucket::node,Node::from_page,Node::insert_data,InnerBucket::get bound="root leaf page with 2 sorted symbolic 2-byte keys; put of a new symbolic key BELOW both, symbolic value; then the leaf is inspected" unwind=5
+// @ob props=C01,C07 tier=thorough cap=900 mem=8 fns=InnerBucket::put,InnerBucket::put_leaf,InnerBucket::node,Node::from_page,Node::insert_data,InnerBucket::get bound="root leaf page with 2 sorted symbolic 2-byte keys; put of a new symbolic key BELOW both, symbolic value; then the leaf is inspected" unwind=5
 put_harness!(bucket_put_new_below, 0);
-// @ob props=C01,C07 tier=quick cap=700 fns=InnerBucket::put,InnerBucket::put_leaf,InnerBucket::node,Node::from_page,Node::insert_data,InnerBucket::get bound="same leaf; put OVER the first key" unwind=5
+// @ob props=C01,C07 tier=quick cap=700 mem=8 fns=InnerBucket::put,InnerBucket::put_leaf,InnerBucket::node,Node::from_page,Node::insert_data,InnerBucket::get bound="same leaf; put OVER the first key" unwind=5
 put_harness!(bucket_put_over_first, 1);
-// @ob props=C01,C07 tier=thorough cap=900 fns=InnerBucket::put,InnerBucket::put_leaf,InnerBucket::node,Node::from_page,Node::insert_data,InnerBucket::get bound="same leaf; put of a new symbolic key BETWEEN the two" unwind=5
+// @ob props=C01,C07 tier=thorough cap=900 mem=8 fns=InnerBucket::put,InnerBucket::put_leaf,InnerBucket::node,Node::from_page,Node::insert_data,InnerBucket::get bound="same leaf; put of a new symbolic key BETWEEN the two" unwind=5
 put_harness!(bucket_put_new_between, 2);
-// @ob props=C01,C07 tier=thorough cap=900 fns=InnerBucket::put,InnerBucket::put_leaf,InnerBucket::node,Node::from_page,Node::insert_data,InnerBucket::get bound="same leaf; put OVER the second key" unwind=5
+// @ob props=C01,C07 tier=thorough cap=900 mem=8 fns=InnerBucket::put,InnerBucket::put_leaf,InnerBucket::node,Node::from_page,Node::insert_data,InnerBucket::get bound="same leaf; put OVER the second key" unwind=5
 put_harness!(bucket_put_over_second, 3);
-// @ob props=C01,C07 tier=thorough cap=900 fns=InnerBucket::put,InnerBucket::put_leaf,InnerBucket::node,Node::from_page,Node::insert_data,InnerBucket::get bound="same leaf; put of a new symbolic key ABOVE both" unwind=5
+// @ob props=C01,C07 tier=thorough cap=900 mem=8 fns=InnerBucket::put,InnerBucket::put_leaf,InnerBucket::node,Node::from_page,Node::insert_data,InnerBucket::get bound="same leaf; put of a new symbolic key ABOVE both" unwind=5
 put_harness!(bucket_put_new_above, 4);
 
 // ---- C01-Ob4 / C07: delete on a committed leaf
@@ -335,7 +335,7 @@ macro_rules! delete_harness {
         }
     };
 }
-// @ob props=C01,C07 tier=quick cap=900 fns=InnerBucket::delete,InnerBucket::node,Node::from_page,Node::delete,InnerBucket::get bound="root leaf page with 2 sorted symbolic 2-byte keys; delete of the FIRST key; then a lookup" unwind=5
+// @ob props=C01,C07 tier=quick cap=700 mem=6 fns=InnerBucket::delete,InnerBucket::node,Node::from_page,Node::delete,InnerBucket::get bound="root leaf page with 2 sorted symbolic 2-byte keys; delete of the FIRST key; then a lookup" unwind=5
 delete_harness!(bucket_delete_first, 0);
 // @ob props=C01,C07 tier=thorough cap=900 fns=InnerBucket::delete,InnerBucket::node,Node::from_page,Node::delete,InnerBucket::get bound="same leaf; delete of the SECOND key" unwind=5
 delete_harness!(bucket_delete_second, 1);
@@ -439,7 +439,7 @@ failing_harness!(bucket_create_over_kv_refused, 3, 0);
 failing_harness!(bucket_create_existing_refused, 3, 1);
 
 // ---- C01-Ob4 / C07: creating a bucket bumps the counter once and the transaction sees it
-// @ob props=C01,C07 tier=quick cap=1200 fns=InnerBucket::create_bucket,InnerBucket::get_or_create_bucket,InnerBucket::bucket_getter,InnerBucket::new_child,InnerBucket::node,Node::from_page,Node::insert_data bound="root leaf page with one kv entry (1-byte name, symbolic); new bucket name symbolic 1 byte, different" unwind=5
+// @ob props=C01,C07 tier=quick cap=700 mem=8 fns=InnerBucket::create_bucket,InnerBucket::get_or_create_bucket,InnerBucket::bucket_getter,InnerBucket::new_child,InnerBucket::node,Node::from_page,Node::insert_data bound="root leaf page with one kv entry (1-byte name, symbolic); new bucket name symbolic 1 byte, different" unwind=5
 #[kani::proof]
 #[kani::unwind(5)]
 fn bucket_create_step() {
@@ -556,6 +556,48 @@ fn cursor_skips_emptied_leaf_node() {
         }
     };
     assert!(k(&d0) == Some(c[0]), "JV-C07-EMPTY-LEAF: the scan skips the emptied leaf and delivers the entries of the next one");
+    assert!(k(&d1) == Some(c[1]));
+    assert!(d2.is_none());
+    std::mem::forget(d0);
+    std::mem::forget(d1);
+    std::mem::forget(d2);
+    std::mem::forget(cur);
+    std::mem::forget(b);
+}
+
+// ---- C07 / C08: seek into the emptied first leaf, then iterate: the entries of the next leaf follow
+// @ob props=C07,C08 tier=quick cap=900 mem=8 fns=Cursor::seek,search,Cursor::next,Cursor::on_empty_leaf,Cursor::current,InnerBucket::page_node bound="concrete scenario (one execution): branch page 3 over leaf pages 4 {10,20} and 5 {30,40}; an empty leaf node shadows page 4; seek(15); three calls of next()" unwind=5
+#[kani::proof]
+#[kani::unwind(5)]
+fn cursor_seek_into_emptied_leaf_node() {
+    // concrete keys (a symbolic seek key forks the descent and every later step: no result in 15 min)
+    let a: [[u8; 2]; 2] = [[10, 0], [20, 0]];
+    let c: [[u8; 2]; 2] = [[30, 0], [40, 0]];
+    tree_two_leaves(&a, &c);
+    let b = mk_bucket(3, true);
+    {
+        let mut ib = b.inner.borrow_mut();
+        let mut n = Node::new(0, Page::TYPE_LEAF, 256);
+        n.page_id = 4;
+        n.num_pages = 1;
+        ib.nodes.push(Rc::new(RefCell::new(n)));
+        ib.page_node_ids.insert(4, 0);
+        ib.dirty = true;
+    }
+    let s: [u8; 2] = [15, 0]; // routed into the first (emptied) leaf
+    let mut cur = b.cursor();
+    let exists = cur.seek(s);
+    assert!(!exists, "nothing is left below the second leaf");
+    let d0 = cur.next();
+    let d1 = cur.next();
+    let d2 = cur.next();
+    let k = |d: &Option<Data>| -> Option<[u8; 2]> {
+        match d {
+            Some(x) => Some([x.key()[0], x.key()[1]]),
+            None => None,
+        }
+    };
+    assert!(k(&d0) == Some(c[0]), "after a seek into an emptied leaf every later entry still follows");
     assert!(k(&d1) == Some(c[1]));
     assert!(d2.is_none());
     std::mem::forget(d0);
